@@ -257,6 +257,9 @@ class Trimesh(Geometry3D):
         if self.is_empty:
             return self
 
+        # normals are kept across the lock below, so make sure
+        # they don't predate an in- place edit of the arrays
+        self._cache.verify()
         # avoid clearing the cache during operations
         with self._cache:
             # if we're cleaning remove duplicate
@@ -2466,6 +2469,10 @@ class Trimesh(Geometry3D):
         elif util.allclose(matrix, _IDENTITY4, 1e-8):
             return self
 
+        # values are kept across the transform below, so make sure
+        # none of them predates an in- place edit of the arrays
+        self._cache.verify()
+
         # new vertex positions
         new_vertices = transformations.transform_points(self.vertices, matrix=matrix)
 
@@ -3141,6 +3148,8 @@ class Trimesh(Geometry3D):
         copied._cache.verify()
 
         if include_cache:
+            # don't hand over values from before an in- place edit
+            self._cache.verify()
             # shallow copy cached items into the new cache
             # since the data didn't change here when the
             # data in the new mesh is changed these items
